@@ -136,6 +136,29 @@ def run_property(prop, tier='quick', seed=0, jobs=None, rebaseline=False, only=N
                 if only and only not in t:
                     continue
                 todo.append((i, t, seed, 10000 if tier == 'quick' else 30000, tier == 'thorough'))
+    # callee closure: the proofs of a property's functions use the contracts of the functions they call; those contracts are
+    # part of the property's check too (recorded at the last rebaseline in expected/callees.json), so that a change inside a
+    # callee is measured by every property that relies on it
+    if twin_targets is None and not only and not os.environ.get('PYVC_NO_CLOSURE'):
+        try:
+            cal = json.load(open(os.path.join(ROOT, 'expected', 'callees.json')))
+        except Exception:
+            cal = {}
+        have = {t_[1] for t_ in todo}
+        frontier = list(have)
+        idx_of = {}
+        for i, c in enumerate(reg.contracts):
+            for t in c.targets():
+                idx_of.setdefault(t, i)
+        while frontier:
+            t = frontier.pop()
+            for cname in cal.get(t, []):
+                k = reg.by_target.get(cname)
+                if k is None or k.trusted or cname in have or cname not in idx_of:
+                    continue
+                have.add(cname)
+                frontier.append(cname)
+                todo.append((idx_of[cname], cname, seed, 10000 if tier == 'quick' else 30000, tier == 'thorough'))
     trusted = [c.target for c in reg.contracts if prop in c.props and c.trusted]
     if not todo:
         print('no function under contract serves %s' % prop)
@@ -164,7 +187,9 @@ def run_property(prop, tier='quick', seed=0, jobs=None, rebaseline=False, only=N
 
 
 def report(prop, tier, seed, results, extra, trusted, t0, rebaseline, verbose):
-    known = [k for k in load_known() if k['property'] == prop]
+    known_all = load_known()
+    known = [k for k in known_all if k['property'] == prop]
+    foreign = []
     _allb = load_baseline()
     baseline = _allb.get(prop)
     # an obligation proved on the unchanged tree under ANY property counts as baseline (C14 adds functions whose twins diverge)
@@ -257,6 +282,14 @@ def report(prop, tier, seed, results, extra, trusted, t0, rebaseline, verbose):
             counted -= 1          # not examined: neither an obligation discharged nor one failed (listed in the evidence)
             continue
         kf = [k for k in known if k['obligation'] == o['name'] and k.get('status', 'open') == 'open']
+        if not kf:
+            elsewhere = [k for k in known_all if k['obligation'] == o['name'] and k.get('status', 'open') == 'open' and k['property'] != prop]
+            if elsewhere:
+                # a recorded finding of another property, met here only because this check includes the function as a callee or
+                # through an anchor tag: it is reported (KNOWN-FINDING) by the property it belongs to, not counted here
+                foreign.append({'obligation': o['name'], 'belongs_to': sorted({k['property'] for k in elsewhere})})
+                counted -= 1
+                continue
         if kf and res_status.get(o['name'] + '#residual') == 'proved':
             known_lines.append((kf[0], o))
             discharged += 1      # the residual obligation stands in for it
@@ -331,6 +364,7 @@ def report(prop, tier, seed, results, extra, trusted, t0, rebaseline, verbose):
             'not_examined_after_three_failures_in_the_function': skipped,
             'specification_cases_no_longer_reachable': unreachable,
             'specification_cases_no_path_realises': dead_cases,
+            'known_findings_of_other_properties_met_in_shared_functions(not counted here)': foreign,
             'known_finding_witnesses_run_natively(thorough tier)': getattr(extra_checks_mod(), 'WITNESS_RUNS', {}).get(prop, {}),
             'bounded_stand_ins_not_counted_as_proved': bounded,
             'extraction': 'functions are read from %s on every run with ast; dropped: docstrings, comments, the effect of logging '
@@ -352,6 +386,15 @@ def report(prop, tier, seed, results, extra, trusted, t0, rebaseline, verbose):
                             any(k['obligation'] == n for k, _ in known_lines))
         with open(p, 'w') as f:
             json.dump(allb, f, indent=0, sort_keys=True)
+        pc = os.path.join(ROOT, 'expected', 'callees.json')
+        try:
+            cc = json.load(open(pc))
+        except Exception:
+            cc = {}
+        for f_ in functions:
+            cc[f_['function']] = sorted(set(f_.get('callee_contracts_used') or []))
+        with open(pc, 'w') as f:
+            json.dump(cc, f, indent=0, sort_keys=True)
         ph = os.path.join(ROOT, 'expected', 'cost_hints.json')
         try:
             hh = json.load(open(ph))
